@@ -9,6 +9,7 @@ import (
 
 	"ergo.services/ergo/act"
 	"ergo.services/ergo/gen"
+	"verif.local/vsched"
 	"verif.local/vsched/harn"
 )
 
@@ -21,10 +22,12 @@ type tree struct {
 	failInit  map[string]bool      // members whose Init fails
 	selfFail  map[string]int       // member -> incarnation (1-based) that sends itself "fail" from Init and so dies at once
 	factories map[string]gen.ProcessFactory
+	childOpts map[string]gen.ProcessOptions // member -> process options written into its child spec
+	early     []string                      // owners whose Terminate callback ran for a shutdown while something they started was alive
 }
 
 func newTree(w *World) *tree {
-	return &tree{w: w, all: map[string][]gen.PID{}, children: map[string][]string{}, failInit: map[string]bool{}, selfFail: map[string]int{}}
+	return &tree{w: w, all: map[string][]gen.PID{}, children: map[string][]string{}, failInit: map[string]bool{}, selfFail: map[string]int{}, childOpts: map[string]gen.ProcessOptions{}}
 }
 
 func (t *tree) record(name string, pid gen.PID) {
@@ -86,6 +89,31 @@ func (s *supB) Init(args ...any) (act.SupervisorSpec, error) {
 	return s.spec, nil
 }
 
+// startChildMsg makes a supervisor start a child of the given spec (simple-one-for-one starts nothing by itself)
+type startChildMsg struct{ name string }
+
+func (s *supB) HandleMessage(from gen.PID, m any) error {
+	if x, ok := m.(startChildMsg); ok {
+		if err := s.StartChild(gen.Atom(x.name)); err != nil {
+			panic(err)
+		}
+	}
+	return nil
+}
+
+// Terminate: a supervisor that ends because it was asked to shut down has stopped everything it started by then
+func (s *supB) Terminate(reason error) {
+	if reason != gen.TerminateReasonShutdown {
+		return
+	}
+	// (its own children: those of a child that was killed meanwhile follow on their own)
+	for _, d := range s.t.children[s.name] {
+		if s.t.anyAlive(d) {
+			s.t.early = append(s.t.early, fmt.Sprintf("%s terminated (%v) while %s, which it started, was still running", s.name, reason, d))
+		}
+	}
+}
+
 // sup builds a supervisor factory; members are name -> factory in order
 func (t *tree) sup(name string, typ act.SupervisorType, members ...string) gen.ProcessFactory {
 	t.children[name] = members
@@ -98,7 +126,7 @@ func (t *tree) sup(name string, typ act.SupervisorType, members ...string) gen.P
 			if f == nil {
 				f = t.worker(m)
 			}
-			spec.Children = append(spec.Children, act.SupervisorChildSpec{Name: gen.Atom(m), Factory: f})
+			spec.Children = append(spec.Children, act.SupervisorChildSpec{Name: gen.Atom(m), Factory: f, Options: t.childOpts[m]})
 		}
 		return &supB{t: t, name: name, spec: spec}
 	}
@@ -135,6 +163,9 @@ func (t *tree) check() {
 		owners = append(owners, o)
 	}
 	sort.Strings(owners)
+	for _, e := range t.early {
+		w.ex.Fail("owner-ended-before-its-children", "%s", e)
+	}
 	for _, o := range owners {
 		if len(t.all[o]) == 0 || t.anyAlive(o) {
 			continue
@@ -199,6 +230,55 @@ func init() {
 					w.ex.ThreadLow("F", func() { w.n.Kill(w.pids[v]) })
 				})
 			}
+		}
+	}
+	// child specs that carry link options of their own: whatever they say, the children go down with a killed supervisor
+	optVariants := map[string]gen.ProcessOptions{"linkchild": {LinkChild: true}, "linkparent": {LinkParent: true}, "both": {LinkChild: true, LinkParent: true}}
+	for tn, typ := range types {
+		for on, opt := range optVariants {
+			tn, typ, on, opt := tn, typ, on, opt
+			c10Scenario(fmt.Sprintf("sup-%s-childspec-%s-kill-S", tn, on), 1, 2, func(w *World, t *tree) {
+				t.childOpts["w1"] = opt
+				f := t.sup("S", typ, "w1", "w2")
+				w.Setup("start", func() {
+					if _, err := w.n.Spawn(f, gen.ProcessOptions{}); err != nil {
+						panic(err)
+					}
+				})
+				w.ex.Thread("F", func() { w.n.Kill(w.pids["S"]) })
+			})
+		}
+	}
+	// a graceful shutdown while one child is slow to end (busy in a callback): the supervisor ends after the last of them,
+	// for every type including simple-one-for-one (two instances of one spec and one of another)
+	allTypes := map[string]act.SupervisorType{"ofo": act.SupervisorTypeOneForOne, "afo": act.SupervisorTypeAllForOne, "rfo": act.SupervisorTypeRestForOne, "sofo": act.SupervisorTypeSimpleOneForOne}
+	for tn, typ := range allTypes {
+		for _, slow := range []string{"w1", "w2"} {
+			tn, typ, slow := tn, typ, slow
+			c10Scenario(fmt.Sprintf("sup-%s-shutdown-slow-child-%s", tn, slow), 1, 2, func(w *World, t *tree) {
+				f := t.sup("S", typ, "w1", "w2")
+				w.Setup("start", func() {
+					if _, err := w.n.Spawn(f, gen.ProcessOptions{}); err != nil {
+						panic(err)
+					}
+				})
+				if typ == act.SupervisorTypeSimpleOneForOne {
+					for _, m := range []string{"w1", "w2", "w2"} {
+						m := m
+						w.nsetup++
+						w.Setup(fmt.Sprintf("startchild%d", w.nsetup), func() { w.n.Send(w.pids["S"], startChildMsg{m}) })
+					}
+				}
+				g := &vsched.Gate{}
+				w.Setup("park", func() { w.n.Send(w.pids[slow], g) })
+				w.ex.Thread("A", func() { w.n.SendExit(w.pids["S"], gen.TerminateReasonShutdown) })
+				w.ex.ThreadLow("G", func() { g.Open() })
+				w.Check = func() {
+					if t.anyAlive("S") {
+						w.ex.Fail("shutdown-ignored", "the supervisor was told to shut down and is still running")
+					}
+				}
+			})
 		}
 	}
 	// a shutdown request reaches the supervisor at every point of an ongoing restart: it must still end, with all it started
